@@ -8,6 +8,9 @@ INST = {
     "f64": {"T": "f64", "TI": "f64", "U": "f64", "INST": "f64"},
     # exact statistics
     "oi64": {"T": "Option<i64>", "TI": "i64", "U": "f64", "INST": "oi64"},
+    # boolean aggregations
+    "obool": {"T": "Option<bool>", "TI": "bool", "U": "bool", "INST": "obool"},
+    "bool": {"T": "bool", "TI": "bool", "U": "bool", "INST": "bool"},
 }
 
 # unit name -> (template, inst)
@@ -16,6 +19,8 @@ UNITS = {
     "final": ("units/final.rs", None),
     "rank": ("units/rank.rs", None),
     "agg": ("units/agg.rs", None),
+    "aggb.obool": ("units/aggb.rs", "obool"),
+    "aggb.bool": ("units/aggb.rs", "bool"),
     "quant": ("units/quant.rs", None),
     "gen": ("units/gen.rs", None),
     "parse": ("units/parse.rs", None),
@@ -135,8 +140,8 @@ PLAN["C04"] = dict(
 )
 
 PLAN["C11"] = dict(
-    verus=dict(quick=["agg"], thorough=["agg"]),
-    kani=dict(quick=[], thorough=[]),
+    verus=dict(quick=["agg", "aggb.obool"], thorough=["agg", "aggb.obool", "aggb.bool"]),
+    kani=dict(quick=["agg_bounded"], thorough=["agg_bounded"]),
     level="proof",
 )
 
